@@ -468,7 +468,12 @@ class _Roll(_Container):
 
     def build(self, n, e):
         inner = as_arg(build_pipeline(n[3], e), n)
-        return twice(lambda: rs.data.roll(n[1], n[2], inner))
+        w, st_ = n[1], n[2]
+        if (n[1] * 7 + n[2] * 3 + len(n[3])) % 5 == 0:
+            # sizes as they come out of numpy / pandas computations (comparisons with them return numpy.bool_)
+            import numpy
+            w, st_ = numpy.int64(w), numpy.int64(st_)
+        return twice(lambda: rs.data.roll(w, st_, inner))
 
     def model(self, n, c):
         return M.Roll(c, n[1], n[2], lambda: model_chain(n[3], c))
